@@ -8,7 +8,7 @@
 
 use crate::capi::run_capi;
 use crate::framework::{Check, Failure, RunReport, Tier};
-use crate::host::{Driver, GcSched, Outcome, RunSpec, run_solo};
+use crate::host::{Driver, GcSched, Inject, Outcome, RunSpec, run_solo};
 use crate::proggen::{GenCfg, HoleVariant, Node};
 use crate::progscn::ProgCase;
 use crate::rng::{Rng, Tape, hash_str};
@@ -30,6 +30,14 @@ pub struct Scn {
     pub role_main: u8,
     pub host_activity_pm: u32,
     pub fuel: u64,
+    /// collections injected at allocations (H2 seam), the same policy for every driver; the
+    /// threshold stays at the default because the C API cannot change it
+    #[serde(default = "no_inject")]
+    pub gc_inject: Inject,
+}
+
+fn no_inject() -> Inject {
+    Inject::None
 }
 
 pub struct C19;
@@ -45,7 +53,8 @@ fn normalised(o: &Outcome) -> String {
 }
 
 fn base_spec(scn: &Scn, driver: Driver) -> RunSpec {
-    let mut s = scn.case.spec(driver, GcSched::threshold(100), Tape::from_vec(vec![]), scn.fuel);
+    let gc = GcSched { inject: scn.gc_inject.clone(), ..GcSched::threshold(100) };
+    let mut s = scn.case.spec(driver, gc, Tape::from_vec(vec![]), scn.fuel);
     s.modules = scn.imports.clone();
     s.linked_promises = true;
     s
@@ -93,6 +102,7 @@ impl Check for C19 {
         cfg.size = 4 + rng.below(30);
         cfg.f_timeish = false;
         cfg.hole_defer_reject = false;
+        cfg.f_batch_unawaited = true;
         // the C-side order() is a native callback taking an object payload: wrapped holes only
         let variant = if holes == 0 { HoleVariant::Sync } else { HoleVariant::Order };
         let mut case = ProgCase::generate(rng, cfg, variant, "v");
@@ -100,7 +110,7 @@ impl Check for C19 {
         if rng.chance(0.4) {
             // console text outside ASCII (the C host receives pointer + byte length)
             let at = 3.min(case.tree.kids.len());
-            case.tree.kids.insert(at, Node::leaf("console.log(\"naïve ✓ 日本語\", 1, \"é\"); console.error(\"érr 😀\"); console.warn(\"ü\".repeat(3));"));
+            case.tree.kids.insert(at, Node::leaf("console.log(\"naïve ✓ 日本語\", 1, \"é\"); console.error(\"érr 😀\"); console.warn(\"ü\".repeat(3)); console.log(\"nul\\u0000inside\", \"\\u0000\");"));
         }
         if rng.chance(0.35) {
             case.module_path = Some("/app/main.ts".into());
@@ -134,7 +144,11 @@ impl Check for C19 {
             None
         };
         let role_main = rng.below(4) as u8;
-        Scn { case, imports, role_module, role_main, host_activity_pm: *rng.pick(&[20u32, 200, 1000]), fuel: 400_000 }
+        let gc_inject = match rng.below(4) {
+            0 => Inject::Prob { pm: *rng.pick(&[10u32, 100, 500]), seed: rng.next_u64() },
+            _ => Inject::None,
+        };
+        Scn { case, imports, role_module, role_main, host_activity_pm: *rng.pick(&[20u32, 200, 1000]), fuel: 400_000, gc_inject }
     }
 
     fn generate_stream(&self, stream: &str, rng: &mut Rng, idx: usize, tier: Tier) -> Scn {
@@ -151,7 +165,7 @@ impl Check for C19 {
             case.module_path = Some("/app/main.ts".into());
         }
         let fuel = if e.modules.is_empty() { 400_000 } else { 1_500_000 };
-        Scn { case, imports: e.modules.clone(), role_module: None, role_main: 0, host_activity_pm: *rng.pick(&[20u32, 200, 1000]), fuel }
+        Scn { case, imports: e.modules.clone(), role_module: None, role_main: 0, host_activity_pm: *rng.pick(&[20u32, 200, 1000]), fuel, gc_inject: Inject::None }
     }
 
     fn shrink(&self, scn: &Scn) -> Vec<Scn> {
@@ -187,8 +201,23 @@ impl Check for C19 {
         s3.host_activity_pm = scn.host_activity_pm;
         let d3 = run_solo(&s3);
         rep.bump("host_activity_between_steps", d3.host_activity);
-        let d4 = run_capi(&base_spec(scn, Driver::Step), true);
-        let d5 = run_capi(&base_spec(scn, Driver::Step), false);
+        let capi = |use_run: bool| -> Outcome {
+            let spec = base_spec(scn, Driver::Step);
+            tsrun::verif::reset();
+            tsrun::verif::set_fuel(Some(spec.fuel));
+            crate::host::install_gc(&spec.gc, 0);
+            let mut o = run_capi(&spec, use_run);
+            if tsrun::verif::fuel_exhausted() {
+                o.result = "fuel".into();
+                o.error_text = None;
+            }
+            tsrun::verif::set_gc_decider(None);
+            tsrun::verif::set_fuel(None);
+            o
+        };
+        let d4 = capi(true);
+        rep.bump("collections_injected_in_capi_driver", tsrun::verif::counters().injected);
+        let d5 = capi(false);
         let reference = normalised(&d2);
         for (name, o) in [("eval", &d1), ("step_with_host_activity", &d3), ("capi_run", &d4), ("capi_step", &d5)] {
             let got = normalised(o);
